@@ -3,6 +3,7 @@ import EtVerif.Props.TrC18
 import EtVerif.Props.TrC01
 import EtVerif.Props.TrGo05
 import EtVerif.Props.TrSrc
+import EtVerif.Props.TrGoSrc
 #print axioms EtVerif.C18.runs_spec
 #print axioms EtVerif.C18.ft_empty
 #print axioms EtVerif.C18.ft_length
@@ -70,3 +71,11 @@ import EtVerif.Props.TrSrc
 #print axioms EtVerif.TrSrc.compute_src_refuses_validation
 #print axioms EtVerif.TrSrc.oracleOK_of_forall
 #print axioms EtVerif.TrSrc.go_compute_src_distribution
+-- the properties stated about basic.Compute translated TOGETHER WITH the source convergence checker (Props/TrGoSrc)
+#print axioms EtVerif.TrGoSrc.go_compute_src_withIterations
+#print axioms EtVerif.TrGoSrc.go_compute_src_stats
+#print axioms EtVerif.TrGoSrc.go_compute_src_stats_fields
+#print axioms EtVerif.TrGoSrc.go_compute_src_criteria_stop
+#print axioms EtVerif.TrGoSrc.go_compute_src_criteria_first
+#print axioms EtVerif.TrGoSrc.go_compute_src_ranking_top
+#print axioms EtVerif.TrGoSrc.go_compute_src_ranking_all
